@@ -93,7 +93,8 @@ fn rand_program(rng: &mut Rng, max_insts: usize, max_depth_bias: bool) -> Progra
             let align = if is_horiz(side) { *rng.pick(&[Side::Top, Side::Bottom]) } else { *rng.pick(&[Side::Left, Side::Right]) };
             let sep = match rng.below(3) {
                 0 => Sep::None,
-                1 => Sep::Pitches(rng.range(0, 25)),
+                // (a negative separation is a deliberate overlap of neighbours)
+                1 => Sep::Pitches(rng.range(-12, 25)),
                 _ => Sep::SizeOf(rng.usize(ncells)),
             };
             Some((to, side, align, sep))
